@@ -196,12 +196,14 @@ Definition server_control_unmarshal (v : string) : res MediaServerControl :=
   do a <- attrs_unmarshal v ;;
   attrs_fold server_control_step a sc0.
 
+(* attrs []string built by append, then strings.Join(attrs, ",") *)
 Definition server_control_marshal (t : MediaServerControl) : string :=
-  "#EXT-X-SERVER-CONTROL:"
-  ++ (if sc_canblockreload t then "CAN-BLOCK-RELOAD=YES" else "")
-  ++ match sc_partholdback t with Some d => ",PART-HOLD-BACK=" ++ fmt_dur orc d | None => "" end
-  ++ match sc_canskipuntil t with Some d => ",CAN-SKIP-UNTIL=" ++ fmt_dur orc d | None => "" end
-  ++ lf.
+  let a1 : list string := if sc_canblockreload t then ["CAN-BLOCK-RELOAD=YES"] else [] in
+  let a2 : list string :=
+    match sc_partholdback t with Some d => ["PART-HOLD-BACK=" ++ fmt_dur orc d] | None => [] end in
+  let a3 : list string :=
+    match sc_canskipuntil t with Some d => ["CAN-SKIP-UNTIL=" ++ fmt_dur orc d] | None => [] end in
+  "#EXT-X-SERVER-CONTROL:" ++ join "," (List.app a1 (List.app a2 a3)) ++ lf.
 
 (* ---------- EXT-X-PART-INF ---------- *)
 Definition part_inf_step (t : MediaPartInf) (key val : string) : res MediaPartInf :=
@@ -523,6 +525,7 @@ Definition media_marshal (m : Media) : string :=
   "#EXTM3U" ++ lf
   ++ "#EXT-X-VERSION:" ++ fmt_int (m_version m) ++ lf
   ++ (if m_independent m then "#EXT-X-INDEPENDENT-SEGMENTS" ++ lf else "")
+  ++ match m_start m with Some t => start_marshal t | None => "" end
   ++ match m_allowcache m with
      | Some b => "#EXT-X-ALLOW-CACHE:" ++ (if b then "YES" else "NO") ++ lf
      | None => ""
@@ -532,7 +535,7 @@ Definition media_marshal (m : Media) : string :=
   ++ match m_partinf m with Some t => part_inf_marshal t | None => "" end
   ++ "#EXT-X-MEDIA-SEQUENCE:" ++ fmt_int (m_mediasequence m) ++ lf
   ++ match m_discseq m with
-     | Some _ => "#EXT-X-DISCONTINUITY-SEQUENCE:" ++ fmt_int (m_mediasequence m) ++ lf
+     | Some d => "#EXT-X-DISCONTINUITY-SEQUENCE:" ++ fmt_int d ++ lf
      | None => ""
      end
   ++ match m_playlisttype m with
